@@ -1351,6 +1351,8 @@ class Interp:
             r = st.alloc(self.E.resolve_class(ty[4:]))
             st.heap[r.ref].hint = hint
             return r
+        if ty.startswith("class:"):
+            return VClass(ty[6:])
         if ty.startswith("opaque:"):
             return VOpaque(ty[7:], st.fresh_int(hint + "_id"))
         if ty.startswith("tuple["):
@@ -1647,6 +1649,9 @@ class Interp:
         v = self.eval(s.exc, fr)
         if isinstance(v, VClass):
             v = self.instantiate(v, [], {}, fr, site)
+        if isinstance(v, VOpaque) and v.tag in getattr(self.E, "opaque_exc", {}):
+            # a stored exception object of a declared class (e.g. one saved earlier for re-raising)
+            v = VExc(self.E.opaque_exc[v.tag])
         if not isinstance(v, VExc):
             raise Unsupported("raise of %s" % self.type_name(v))
         raise PyExc(v, site)
